@@ -41,7 +41,7 @@ type RevCase struct {
 var histTargets = []string{"plain", "array", "function", "arguments", "string"}
 var histOps = []string{"define", "get", "set", "has", "delete", "keys", "gopd", "prevext", "isext", "getproto", "setproto", "call"}
 
-const histNKeys = 10
+const histNKeys = 11
 const histNVals = 7
 
 func histGen(r *vh.Rng, tier string) HistCase {
@@ -85,12 +85,6 @@ func histGen(r *vh.Rng, tier string) HistCase {
 				if r.Bool() {
 					d.Set = ip(r.Intn(2))
 				}
-				// an accessor with neither getter nor setter function is reported as a data property by the
-				// proxy (finding F6c, covered by the lattice); histories avoid creating one so that its
-				// consequences (freeze/seal redefining it as data, layered get checks) do not drown the rest
-				if (d.Get == nil || *d.Get == 0) && (d.Set == nil || *d.Set == 0) {
-					d.Get = ip(1)
-				}
 			case 2: // invalid mix
 				d.Value = ip(1)
 				d.Get = ip(1)
@@ -115,7 +109,7 @@ func revGen(r *vh.Rng) RevCase {
 
 const histPrelude = `
 "use strict";
-var HSYM = Symbol("h"), VOBJ = {vobj: 1};
+var HSYM = Symbol("h"), HSYM2 = Symbol("h2"), VOBJ = {vobj: 1};
 var curLog = null, nameOf = null;
 function GETF(){ curLog.push("get@" + nameOf(this)); return 41; }
 function SETF(v){ curLog.push("set@" + nameOf(this) + "=" + hcanon(v)); }
@@ -123,7 +117,7 @@ var HF = [undefined, GETF, SETF];
 var PROTO = {inh: 1}; Object.defineProperty(PROTO, "pacc", {get: GETF, set: SETF, enumerable: true, configurable: true});
 Object.defineProperty(PROTO, "pro", {value: 5, writable: false, enumerable: true, configurable: true});
 var OTHERPROTO = {oth: 2};
-var HKEYS = ["a", "b", "length", "0", "1", "5", HSYM, "nc", "acc", "pacc"];
+var HKEYS = ["a", "b", "length", "0", "1", "5", HSYM, "nc", "acc", "pacc", HSYM2];
 var HVALS = [1, 2, "x", undefined, NaN, -0, VOBJ];
 function hcanon(v){
   if (v === undefined) return "u"; if (v === null) return "n";
@@ -131,7 +125,7 @@ function hcanon(v){
   case "boolean": return v ? "T" : "F";
   case "number": return Object.is(v, -0) ? "-0" : String(v);
   case "string": return JSON.stringify(v);
-  case "symbol": return v === HSYM ? "@h" : "@?";
+  case "symbol": return v === HSYM ? "@h" : v === HSYM2 ? "@h2" : "@?";
   }
   return nameOf(v); }
 function hdesc(d){
@@ -159,6 +153,9 @@ function hmk(kind){
   Object.defineProperty(o, "nc", {value: 9, writable: false, enumerable: true, configurable: false});
   Object.defineProperty(o, "acc", {get: GETF, set: SETF, enumerable: true, configurable: true});
   o[HSYM] = 3;
+  /* a writable symbol-keyed property that is neither enumerable nor configurable: assignments through a set trap
+     must leave its attributes alone */
+  Object.defineProperty(o, HSYM2, {value: 4, writable: true, enumerable: false, configurable: false});
   return o; }
 var REFLECT_HANDLER = {
   getPrototypeOf: function(t){ return Reflect.getPrototypeOf(t); },
